@@ -36,7 +36,7 @@ PROPS = {
  'C18': dict(level='other', lemmas=['R1', 'R2', 'R3'],
    files=['src/reciprocal.c', 'src/reciprocal.h', 'src/asm/randomx_reciprocal.inc', 'src/common.hpp', 'src/bytecode_machine.cpp', 'src/jit_compiler_x86.cpp', 'src/dataset.cpp', 'src/superscalar.cpp'],
    explanation='TODO', trusted=['Euclidean characterisation of unsigned division'], outside=[]),
- 'C08': dict(level='translation_validation', lemmas=['D2', 'D1', 'S4', 'J5'],
+ 'C08': dict(level='translation_validation', lemmas=['D2', 'D1', 'S4', 'J5', 'F1'],
    files=['src/randomx.cpp', 'src/dataset.cpp', 'src/dataset.hpp', 'src/superscalar.cpp', 'src/jit_compiler_x86.cpp', 'src/jit_compiler_x86_static.S', 'src/vm_interpreted_light.cpp'],
    explanation='TODO', trusted=[], outside=[]),
  'C13': dict(level='other', lemmas=['H1'],
